@@ -289,8 +289,9 @@ Fixpoint lookup_bad (code : Z) (t : list (Z * list str)) : list str :=
   | (c, l) :: r => if (c =? code)%Z then l else lookup_bad code r
   end.
 
-Definition is_bad (bad : list str) (name : str) : bool :=
-  if Gen.headerlist_blacklist_case_sensitive then mem_str name bad else mem_str (title name) bad.
+(* [cs] = the name is compared as stored (the code before fix F17); otherwise h[0].title() *)
+Definition is_bad (cs : bool) (bad : list str) (name : str) : bool :=
+  if cs then mem_str name bad else mem_str (title name) bad.
 
 Inductive tres := TOk (s : str) | TAttr | TEnc.
 Definition emit_atom (a : atom) : tres :=
@@ -331,12 +332,16 @@ Fixpoint emit_store (d : store) : hlres :=
 
 Definition has_key (k : str) (d : store) : bool := match sget k d with Some _ => true | None => false end.
 
-Definition headerlist (s : rstate) : hlres :=
+Definition visible (cs : bool) (s : rstate) : store :=
   let bad := lookup_bad (st_code s) Gen.bad_headers in
-  let headers := match bad with
-                 | [] => st_store s
-                 | _ => filter (fun h => negb (is_bad bad (fst h))) (st_store s)
-                 end in
+  match bad with
+  | [] => st_store s
+  | _ => filter (fun h => negb (is_bad cs bad (fst h))) (st_store s)
+  end.
+
+Definition headerlist_cs (cs : bool) (s : rstate) : hlres :=
+  let bad := lookup_bad (st_code s) Gen.bad_headers in
+  let headers := visible cs s in
   let need_ctype := match bad with
                     | [] => negb (has_key (L "Content-Type") (st_store s))
                     | _ => false
@@ -350,6 +355,8 @@ Definition headerlist (s : rstate) : hlres :=
     end
   | e => e
   end.
+
+Definition headerlist : rstate -> hlres := headerlist_cs Gen.headerlist_blacklist_case_sensitive.
 
 (* ------------------------------------------------------------------ *)
 (* correspondence interface                                            *)
@@ -437,11 +444,12 @@ Definition enc_hl (h : hlres) : list Z :=
   | HLEncodeError => [2%Z]
   end.
 
-(* after every operation: the exception (0 = none) and the header list *)
+(* after every operation: the exception (0 = none), the status code and the header list *)
 Fixpoint run_obs (s : rstate) (ops : list op) : list Z :=
   match ops with
   | [] => []
-  | o :: r => let (s', e) := step s o in enc_err e :: enc_hl (headerlist s') ++ run_obs s' r
+  | o :: r => let (s', e) := step s o in
+              enc_err e :: st_code s' :: enc_hl (headerlist s') ++ run_obs s' r
   end.
 
 Definition corr_C14 (inp : list Z) : list Z :=
